@@ -43,20 +43,20 @@ func checkC19(c *Ctx) (string, []string) {
 		}), "C19.append", M+"AppendOne · skips only nil", f.Pos(), "every non-nil item reaches P", "an item that is not nil can be skipped (a path from item != nil returns without calling P)")
 	}
 	pcall := M + "P(p0, cat(p0.Peaks), p1, 0)"
-	c.requireSet("C19.append", M+"AppendOne · calls", fn["MMR.AppendOne"].Pos(), "AppendOne's mmr calls", abbrAll(robustCalls(fn["MMR.AppendOne"], o, keep)), []string{pcall})
+	c.requireSet("C19.append", M+"AppendOne · calls", fn["MMR.AppendOne"].Pos(), "AppendOne's mmr calls", normFreshCopyAll(abbrAll(robustCalls(fn["MMR.AppendOne"], o, keep))), []string{pcall})
 	{
 		f := fn["MMR.AppendOne"]
 		// m.Peaks is rebound to P's result and the result is what is returned
 		stored := false
 		allInstrs(f, func(in ssa.Instruction) {
-			if st, ok := in.(*ssa.Store); ok && abbr(exprStr(st.Addr, o)) == "&p0.Peaks" && abbr(exprStr(st.Val, o)) == pcall {
+			if st, ok := in.(*ssa.Store); ok && abbr(exprStr(st.Addr, o)) == "&p0.Peaks" && normFreshCopy(abbr(exprStr(st.Val, o))) == pcall {
 				stored = true
 			}
 		})
 		c.Check(stored, "C19.append", M+"AppendOne · install", f.Pos(), "m.Peaks = P(copy, item, 0)", "AppendOne does not install P's result as the new peak list")
 		var rets []string
 		for _, s := range abbrMap(returnShapesO(f, o))["ret"] {
-			rets = append(rets, expandAlts(s)...)
+			rets = append(rets, expandAlts(normFreshCopy(s))...)
 		}
 		okR := len(rets) > 0
 		for _, s := range rets {
@@ -113,6 +113,9 @@ func checkC19(c *Ctx) (string, []string) {
 					ncall++
 					a := abbr(exprStr(ci.Common().Args[1], shapeOpts))
 					ok := a == "append(nil, p0.Peaks)" || strings.HasPrefix(a, M+"Replace(")
+					if mk, isMk := stripConv(resolveLocal(ci.Common().Args[1])).(*ssa.MakeSlice); isMk && (mk.Cap == nil || mk.Cap == mk.Len) {
+						ok = true // a list made in this call with no spare capacity
+					}
 					c.Check(ok, "C19.no-shared-mutation", funcKey(f)+" · P called with "+a, ci.Pos(), "list is private to the call", "P may append into the spare capacity of a list its caller still shares")
 				}
 			}
@@ -121,7 +124,7 @@ func checkC19(c *Ctx) (string, []string) {
 	c.extra["calls_of_P"] = ncall
 
 	c.Rule("C19.super-peak", "SuperPeak drops nil peaks, then: none ↦ zero hash, one ↦ that peak, otherwise the left fold Keccak($peak ⌢ acc ⌢ next) over the remaining peaks in order (as the GP recursion on all-but-last, or as an accumulating loop from the first peak); AppendAndCommitMmr commits to exactly the list AppendOne returned", 5)
-	c19SuperPeak(c, fn["MMR.SuperPeak"])
+	c19SuperPeakTerms(c, fn["MMR.SuperPeak"])
 	m := "phi(mmr.NewMMR(hash.KeccakHash) | mmr.NewMMRFromPeaks(p0.Peaks, hash.KeccakHash))"
 	ap := M + "AppendOne(" + m + ", cell(p1))"
 	c.checkShapes("C19.super-peak", "internal/recent_history.AppendAndCommitMmr", rh, abbrMap(returnShapes(rh)), map[string][]string{
@@ -486,4 +489,52 @@ func c19SuperPeak(c *Ctx, f *ssa.Function) {
 		c.OK("C19.super-peak", key+" · results", f.Pos(), "zero hash for no peaks, otherwise the accumulator")
 		c.OK("C19.super-peak", key+" · singleton", f.Pos(), "a single peak is the initial accumulator")
 	}
+}
+
+// normFreshCopy: a slice made with the length of X and filled from X is the same private copy as append(empty, X...):
+// make([]T, len(X)){[:] ⇐ X} ↦ cat(X).
+func normFreshCopy(s string) string {
+	for {
+		i := strings.Index(s, "make([]")
+		if i < 0 {
+			return s
+		}
+		j := strings.Index(s[i:], ", len(")
+		if j < 0 {
+			return s
+		}
+		start := i + j + len(", len(")
+		depth, end := 1, -1
+		for k := start; k < len(s); k++ {
+			switch s[k] {
+			case '(':
+				depth++
+			case ')':
+				depth--
+			}
+			if depth == 0 {
+				end = k
+				break
+			}
+		}
+		if end < 0 {
+			return s
+		}
+		x := s[start:end]
+		tail := "){[:] ⇐ " + x + "}"
+		if !strings.HasPrefix(s[end+1:], tail) {
+			// not this form: protect the occurrence and look further
+			rest := normFreshCopy(s[i+1:])
+			return s[:i+1] + rest
+		}
+		s = s[:i] + "cat(" + x + ")" + s[end+1+len(tail):]
+	}
+}
+
+func normFreshCopyAll(in []string) []string {
+	out := make([]string, len(in))
+	for i, s := range in {
+		out[i] = normFreshCopy(s)
+	}
+	return out
 }
